@@ -365,3 +365,203 @@ Theorem workhours_roundtrip_stream w : wf_workhours w = true ->
   forall sr rest, no_empty sr -> concat sr = write_workhours w ++ rest ->
   exists sr', read_workhours stream_ops sr = Ok (w, sr') /\ concat sr' = rest /\ no_empty sr'.
 Proof. intros H. apply rt_stream with (f := read_workhours flat_ops); [apply agree_workhours | apply rt_workhours; exact H]. Qed.
+
+(* ---- what "unchanged" means: the wire's normalisations ------------------------------------ *)
+Lemma i64_range x : -9223372036854775808 <= i64 x < 9223372036854775808.
+Proof.
+  unfold i64, sgn. cbv zeta. change (2 ^ 64) with 18446744073709551616.
+  change (18446744073709551616 / 2) with 9223372036854775808.
+  destruct (x mod 18446744073709551616 <? 9223372036854775808) eqn:E; lia.
+Qed.
+Lemma i8_small v : 0 <= v < 128 -> i8 v = v.
+Proof.
+  intros H. unfold i8, sgn. cbv zeta. change (2 ^ 8) with 256. rewrite Z.mod_small by lia.
+  change (256 / 2) with 128. replace (v <? 128) with true by lia. reflexivity.
+Qed.
+
+(* the kill date travels as Unix seconds with 0 = none: one-second resolution, and both the zero
+   Time and Unix second 0 arrive as "none" *)
+Lemma norm_kill_spec t : wf_time t = true ->
+  norm_kill t = if is_zero_time t || (t_sec t =? 0) then zero_time else mkTime (t_sec t) 0.
+Proof.
+  unfold wf_time. intros H. bools. unfold norm_kill, kill_wire, kill_of_wire.
+  destruct (is_zero_time t); cbn [orb]; [reflexivity|].
+  rewrite i64_u64 by lia. reflexivity.
+Qed.
+Lemma norm_kill_exact t : wf_time t = true -> exact_kill t = true -> norm_kill t = t.
+Proof.
+  intros Hw He. rewrite norm_kill_spec by exact Hw. unfold exact_kill in He.
+  destruct t as [sec ns]. unfold is_zero_time in *. cbn [t_sec t_nsec] in *.
+  destruct ((sec =? zeroUnix) && (ns =? 0)) eqn:Ez; cbn [orb] in *.
+  - apply andb_true_iff in Ez. destruct Ez as [E1 E2]. apply Z.eqb_eq in E1, E2. subst. reflexivity.
+  - apply andb_true_iff in He. destruct He as [E1 E2]. apply Z.eqb_eq in E1. subst ns.
+    destruct (sec =? 0); [discriminate | reflexivity].
+Qed.
+Lemma exact_kill_of_wire v : exact_kill (kill_of_wire v) = true.
+Proof.
+  unfold kill_of_wire, exact_kill. destruct (v =? 0) eqn:E; [reflexivity|].
+  unfold is_zero_time. cbn [t_sec t_nsec]. rewrite E. cbn. apply orb_true_r.
+Qed.
+Lemma wf_kill_of_wire x : wf_time (kill_of_wire (i64 x)) = true.
+Proof.
+  unfold kill_of_wire, wf_time. pose proof (i64_range x). destruct (i64 x =? 0); [reflexivity|].
+  cbn [t_sec t_nsec]. unfold is_i64. lia.
+Qed.
+Lemma norm_work_exact w : exact_work w = true -> norm_work_opt w = w.
+Proof.
+  destruct w as [w|]; [|reflexivity]. cbn [exact_work norm_work_opt]. unfold norm_work.
+  destruct (work_empty w); [discriminate | reflexivity].
+Qed.
+Lemma exact_norm_work w : exact_work (norm_work w) = true.
+Proof. unfold norm_work. destruct (work_empty w) eqn:E; cbn [exact_work]; [reflexivity | rewrite E; reflexivity]. Qed.
+
+(* what the receiver holds after a message of kind k (not the proxy update, which carries no settings) *)
+Theorem absorbed_settings k s r : k <> infoProxy ->
+  let r' := absorb k s r in
+  s_jitter r' = s_jitter s /\ s_sleep r' = s_sleep s /\
+  s_kill r' = norm_kill (s_kill s) /\ s_work r' = norm_work_opt (s_work s).
+Proof.
+  intros Hk. unfold absorb. replace (k =? infoProxy) with false by lia.
+  destruct (k =? infoMigrate); repeat split; reflexivity.
+Qed.
+Theorem absorbed_settings_exact k s r : k <> infoProxy -> wf_settings s = true -> exact_settings s = true ->
+  let r' := absorb k s r in
+  s_jitter r' = s_jitter s /\ s_sleep r' = s_sleep s /\ s_kill r' = s_kill s /\ s_work r' = s_work s.
+Proof.
+  intros Hk Hw He. destruct (absorbed_settings k s r Hk) as (A & B & C & D). cbv zeta.
+  unfold wf_settings in Hw. unfold exact_settings in He. bools.
+  rewrite A, B, C, D, norm_kill_exact, norm_work_exact by assumption. repeat split.
+Qed.
+Theorem absorbed_identity k s r :
+  let r' := absorb k s r in
+  (has_device k = true -> s_dev r' = s_dev s) /\
+  (k = infoMigrate -> s_id r' = s_id s /\ s_keys r' = s_keys s) /\
+  (has_device k = false -> s_dev r' = s_dev r) /\
+  (k <> infoMigrate -> s_id r' = s_id r /\ s_keys r' = s_keys r).
+Proof.
+  cbv zeta. unfold absorb. destruct (k =? infoProxy) eqn:Ep.
+  { assert (k = infoProxy) by lia. subst k. repeat split; try reflexivity; try discriminate. }
+  destruct (k =? infoMigrate) eqn:Em.
+  - assert (k = infoMigrate) by lia. subst k. cbn. repeat split; try reflexivity; try discriminate; congruence.
+  - destruct (has_device k); repeat split; try reflexivity; try discriminate; lia.
+Qed.
+
+(* ---- part 3: MvTime ------------------------------------------------------------------------ *)
+Definition wf_order (o : order) : bool :=
+  match o with
+  | OSetDuration t _ | OTaskDuration t _ => is_i64 t
+  | OSetKill k | OTaskKill k => wf_time k
+  | OSetWork w => wf_work w
+  | OTaskWork w => wf_workhours w
+  end.
+
+(* the client's settings after the order, in terms of what the SERVER's view held (SetDuration sends
+   the server's resulting jitter and sleep, not the arguments) *)
+Definition effect (srv c : session) (o : order) : session :=
+  match o with
+  | OSetDuration t j =>
+    let jit := if j =? -1 then s_jitter srv else order_jitter j in
+    let sl := if 0 <? t then t else s_sleep srv in
+    set_duration c (clamp_jitter (s_jitter c) (i8 jit)) (if 0 <? sl then sl else s_sleep c)
+  | _ => apply_order c o
+  end.
+
+Lemma client_time_duration c jb d0 : 0 <= jb < 256 -> 0 <= d0 < 18446744073709551616 ->
+  client_time c ([0; jb] ++ enc_u64 d0) =
+  Ok (set_duration c (clamp_jitter (s_jitter c) (i8 jb)) (if 0 <? i64 d0 then i64 d0 else s_sleep c),
+      write_info infoSync (set_duration c (clamp_jitter (s_jitter c) (i8 jb)) (if 0 <? i64 d0 then i64 d0 else s_sleep c))).
+Proof.
+  intros Hj Hd. unfold client_time. cbn [app rd_u8 bind].
+  change (0 =? timeSleepJitter) with true. cbn [app rd_u8 bind].
+  rewrite <- (app_nil_r (enc_u64 d0)), rd_u64_enc by lia. cbn [bind]. reflexivity.
+Qed.
+Lemma client_time_kill c kw : 0 <= kw < 18446744073709551616 ->
+  client_time c (enc_u8 timeKillDate ++ enc_u64 kw) =
+  Ok (set_kill c (kill_of_wire (i64 kw)), write_info infoSync (set_kill c (kill_of_wire (i64 kw)))).
+Proof.
+  intros Hk. unfold client_time. change (enc_u8 timeKillDate) with [1]. cbn [app rd_u8 bind].
+  change (1 =? timeSleepJitter) with false. change (1 =? timeKillDate) with true. cbn [bind].
+  rewrite <- (app_nil_r (enc_u64 kw)), rd_u64_enc by lia. cbn [bind]. reflexivity.
+Qed.
+Lemma client_time_work c w body : rt (read_workhours flat_ops) body w ->
+  client_time c (enc_u8 timeWorkHours ++ body) =
+  Ok (set_work c (norm_work w), write_info infoSync (set_work c (norm_work w))).
+Proof.
+  intros Hb. unfold client_time. change (enc_u8 timeWorkHours) with [2]. cbn [app rd_u8 bind].
+  change (2 =? timeSleepJitter) with false. change (2 =? timeKillDate) with false.
+  change (2 =? timeWorkHours) with true. cbn [bind].
+  rewrite <- (app_nil_r body), Hb. cbn [bind]. reflexivity.
+Qed.
+
+Lemma be16_small v : 0 <= v < 256 -> enc_u16 (u16 v) = [0; v].
+Proof. intros H. unfold enc_u16, be16, u16, u8. f_equal; [lia|]. f_equal. lia. Qed.
+Lemma be16_tag2 d : 0 <= d < 256 -> enc_u16 (u16 (Z.lor 512 (Z.land d 255))) = [2; d].
+Proof.
+  intros H. change 255 with (2 ^ 8 - 1). rewrite land_ones_mod by lia. change (2 ^ 8) with 256.
+  rewrite Z.mod_small by lia. change 512 with (Z.shiftl 2 8). rewrite lor_shiftl_add by (change (2 ^ 8) with 256; lia).
+  change (2 ^ 8) with 256. unfold enc_u16, be16, u16, u8. f_equal; [lia|]. f_equal. lia.
+Qed.
+
+Lemma order_jitter_range j : 0 <= order_jitter j <= 100.
+Proof. unfold order_jitter. destruct (j <? 0) eqn:A; [lia|]. destruct (100 <? j) eqn:B; lia. Qed.
+Lemma clamp_in_domain cur v : 0 <= v <= 100 -> clamp_jitter cur (i8 v) = v.
+Proof.
+  intros H. rewrite i8_small by lia. unfold clamp_jitter.
+  replace (v =? -1) with false by lia. replace (100 <? v) with false by lia. replace (v <? 0) with false by lia. reflexivity.
+Qed.
+
+(* the client handler on the packet the server setter built *)
+Theorem client_handles_order srv cli o srv1 pkt :
+  wf_settings srv = true -> wf_order o = true -> server_set srv o = Ok (srv1, pkt) ->
+  client_time cli pkt = Ok (effect srv cli o, write_info infoSync (effect srv cli o)).
+Proof.
+  unfold wf_settings. intros Hs Ho Hset. bools.
+  destruct o as [t j|k|[w|]|d j|k|w]; cbn [server_set wf_order] in *; bools.
+  - (* SetDuration *)
+    injection Hset as <- <-.
+    set (jit := if j =? -1 then s_jitter srv else if j <? 0 then 0 else if 100 <? j then 100 else u8 j).
+    set (sl := if 0 <? t then t else s_sleep srv).
+    assert (Ej : jit = if j =? -1 then s_jitter srv else order_jitter j).
+    { subst jit. unfold order_jitter. destruct (j =? -1); [reflexivity|]. destruct (j <? 0) eqn:A; [reflexivity|].
+      destruct (100 <? j) eqn:B; [reflexivity|]. apply u8_small. lia. }
+    assert (Hj : 0 <= jit < 256).
+    { rewrite Ej. destruct (j =? -1); [lia|]. pose proof (order_jitter_range j). lia. }
+    assert (Hsl : -9223372036854775808 <= sl < 9223372036854775808) by (subst sl; destruct (0 <? t); lia).
+    rewrite be16_small by exact Hj. rewrite client_time_duration by (try apply u64_range; exact Hj).
+    rewrite i64_u64 by exact Hsl. cbn [effect]. cbv zeta. rewrite <- Ej. reflexivity.
+  - (* SetKillDate *)
+    injection Hset as <- <-.
+    rewrite client_time_kill by (unfold kill_wire; destruct (is_zero_time k); [lia | apply u64_range]). reflexivity.
+  - (* SetWorkHours w *)
+    destruct (work_empty w) eqn:Ee.
+    + injection Hset as <- <-. change clear_work_packet with (enc_u8 timeWorkHours ++ write_work None).
+      rewrite (client_time_work cli _ _ rt_work_none). cbn [effect apply_order]. unfold norm_work at 3. rewrite Ee. reflexivity.
+    + destruct (work_verify w); cbn [negb] in Hset; [|discriminate]. injection Hset as <- <-.
+      rewrite (client_time_work cli w) by (apply rt_workhours; assumption). reflexivity.
+  - (* SetWorkHours nil *)
+    injection Hset as <- <-. change clear_work_packet with (enc_u8 timeWorkHours ++ write_work None).
+    rewrite (client_time_work cli _ _ rt_work_none). reflexivity.
+  - (* task.Duration *)
+    injection Hset as <- <-. cbv zeta.
+    destruct (j =? -1) eqn:E1.
+    + change (Z.land (-1) 255) with 255. rewrite be16_small by lia.
+      rewrite client_time_duration by (try apply u64_range; lia). rewrite i64_u64 by lia.
+      cbn [effect apply_order]. change (i8 255) with (-1). reflexivity.
+    + assert (Hoj : (if j <? 0 then 0 else if 100 <? j then 100 else j) = order_jitter j) by reflexivity.
+      rewrite Hoj. pose proof (order_jitter_range j) as Hr.
+      change 255 with (2 ^ 8 - 1). rewrite land_ones_mod by lia. change (2 ^ 8) with 256.
+      rewrite Z.mod_small by lia. rewrite be16_small by lia.
+      rewrite client_time_duration by (try apply u64_range; lia). rewrite i64_u64 by lia.
+      cbn [effect apply_order]. rewrite clamp_in_domain by exact Hr. reflexivity.
+  - (* task.KillDate *)
+    injection Hset as <- <-.
+    rewrite client_time_kill by (unfold kill_wire; destruct (is_zero_time k); [lia | apply u64_range]). reflexivity.
+  - (* task.WorkHours *)
+    injection Hset as <- <-. unfold wf_workhours in Ho. bools.
+    rewrite be16_tag2 by lia.
+    change ([2; w_days w] ++ enc_u8 (w_sh w) ++ enc_u8 (w_sm w) ++ enc_u8 (w_eh w) ++ enc_u8 (w_em w))
+      with (enc_u8 timeWorkHours ++ [w_days w] ++ enc_u8 (w_sh w) ++ enc_u8 (w_sm w) ++ enc_u8 (w_eh w) ++ enc_u8 (w_em w)).
+    rewrite (client_time_work cli w); [reflexivity|].
+    eapply rt_eq; [|apply rt_workhours; unfold wf_workhours, is_u8; lia].
+    unfold write_workhours, enc_u8 at 1. rewrite u8_small by lia. reflexivity.
+Qed.
